@@ -5,8 +5,9 @@ META = {
                    "TOKEN_TO_RAW_POWER_OF_10_CONVERSION digits and TOKEN_TO_RAW_CONVERSION == 10^that, unit/remainder are "
                    "Div/Rem by the same constant; (2) from_str / checked_add / checked_sub contain no wrapping ruint operator "
                    "(`+`,`-`,`*` on Uint wrap silently) except the bounded remainder scaling; (3) checked_add/sub delegate to "
-                   "Uint::checked_add/sub. Not decided: the exact accepted language and the value round trip.",
-    "not_decided": ["value-level round trip Display→FromStr", "exact accepted language (ruint FromStr accepts radix prefixes)"],
+                   "Uint::checked_add/sub; (4) the units and the fraction are parsed as decimal digits only: ruint's FromStr (radix prefixes, `_`) "
+                   "is not used, from_str_radix gets the literal 10 behind an all-ASCII-digits test. Not decided: the value round trip.",
+    "not_decided": ["value-level round trip Display→FromStr", "whether an empty integer or fraction part (\"\", \".5\", \"5.\") counts as a decimal string"],
     "trusted": ["ruint checked_* semantics", "core::fmt zero padding"],
 }
 
@@ -75,6 +76,50 @@ def run(R):
     R.must_call("C16.parse.checked_mul", FROM_STR, ["*ruint::Uint::checked_mul", "*<impl ruint::Uint<BITS, LIMBS>>::checked_mul"], "units scaled with checked_mul")
     R.must_call("C16.parse.checked_add", FROM_STR, ["*ruint::Uint::checked_add", "*<impl ruint::Uint<BITS, LIMBS>>::checked_add"], "units + remainder with checked_add")
     R.must_call("C16.parse.checked_sub", FROM_STR, ["core::num::<impl u64>::checked_sub"], "18 - len(fraction) with checked_sub (LossOfPrecision)")
+    decimal_only(R)
     # (3) delegation
     R.must_call("C16.add", AMT + "AttoTokens::checked_add", ["*<impl ruint::Uint<BITS, LIMBS>>::checked_add"], "checked_add delegates to Uint::checked_add")
     R.must_call("C16.sub", AMT + "AttoTokens::checked_sub", ["*<impl ruint::Uint<BITS, LIMBS>>::checked_sub"], "checked_sub delegates to Uint::checked_sub")
+
+
+def decimal_only(R):
+    """The parser reads decimal digits only: ruint's `FromStr` accepts `0x`/`0o`/`0b` prefixes and skips `_`, so no part of an
+    amount may be parsed with it; `from_str_radix` must be given the literal radix 10 and only a string that passed an
+    all-ASCII-digits test (from_str_radix itself skips `_`)."""
+    from flow import prep, callee_matches, op_local
+    from rules import CallGuard, CallSink, closures_passed
+    F = R.F
+    mod = [b for b in F.bodies.values() if b.crate == "ant_evm" and (b.path.startswith(AMT) or b.path.startswith("<" + AMT)) and "::tests::" not in b.path]
+    lax, radix_sites = [], []
+    for b in mod:
+        for c in b.calls:
+            nc = c["ncallee"] or ""
+            tg = str(c.get("targs") or "")
+            if ("ruint::Uint" in nc and nc.endswith("core::str::traits::FromStr>::from_str")) or (nc == "core::str::<impl str>::parse" and "ruint::Uint" in tg) \
+                    or (nc.endswith("FromStr>::from_str") and "ruint::Uint" in tg):
+                lax.append((b, c))
+            if nc.endswith("::from_str_radix") and "ruint" in nc:
+                radix_sites.append((b, c))
+    for b, c in lax:
+        R.viol("C16.parse.decimal", "radix-prefix-parser:%s" % R.root_path(b).split("::")[-1],
+               "%s parses a part of the amount with ruint's FromStr, which accepts 0x/0o/0b prefixes and ignores `_` (non-decimal strings are accepted, e.g. \"0x10\", \"1.5_\")" % R.root_path(b), b, c["line"])
+    ok = not lax and bool(radix_sites)
+    if not radix_sites:
+        R.viol("C16.parse.decimal", "anchor-missing:from_str_radix", "no decimal `from_str_radix(_, 10)` parse found in ant_evm::amount")
+    for b, c in radix_sites:
+        if not any(k[0] == 1 and k[1].startswith("10_") for k in c.get("consts") or []):
+            ok = False
+            R.viol("C16.parse.decimal", "radix-not-10:%s" % R.root_path(b).split("::")[-1], "from_str_radix is not called with the literal radix 10 in %s" % b.path, b, c["line"])
+        body = F.body(b.path)
+        prep(body)
+        # the all-digits test: Iterator::all over the bytes/chars with a closure whose verdict is is_ascii_digit
+        def digits_pred(bd, blk, t):
+            for cl in closures_passed(F, bd, t):
+                prep(cl)
+                if any(x["term"]["k"] == "call" and (x["term"]["ncallee"] or "").endswith("::is_ascii_digit") and x["term"]["d"] == [0] for x in cl.blocks):
+                    return True
+            return False
+        gd = CallGuard(["*core::iter::traits::iterator::Iterator>::all", "core::iter::traits::iterator::Iterator::all"], ("true",), "all characters are ASCII digits", arg_pred=digits_pred)
+        if not R.gate("C16.parse.digits", body, CallSink("*::from_str_radix"), [[gd]], descr="from_str_radix only on a string of ASCII digits (it skips `_`)"):
+            ok = False
+    R.inst("C16.parse.decimal", "K1 forbidden-callee", "amount parts are parsed as decimal digits only (no ruint FromStr; from_str_radix(_, 10))", len(radix_sites) + len(lax), ok)
